@@ -332,12 +332,32 @@ def wrapped_cases(cfg, ordinary=False):
         st.sampled_from(SPACED),
         st.sampled_from([p.upper() for p in ORDINARY[:5]] + ["Select", "ID", "Extend_0"]),
     )
+    # letter-case variants of generated query names as TABLE names (SQLite compares identifiers case-insensitively)
+    case_variants = [f(p) + str(n) for p in VIEW_PREFIXES for n in range(4) for f in (str.upper, str.capitalize)]
     return st.fixed_dictionaries(
         {
             "case": gen.programs(cfg),
             "pool": st.lists(name_st, min_size=30, max_size=40),
             "suffix_pair": st.sampled_from([None, None] + SUFFIXES),
             "flip_order": st.booleans(),
+            "force_table": st.one_of(st.none(), st.none(), st.none(), st.sampled_from(case_variants)),
+            "force_idx": st.sampled_from(range(4)),
+        }
+    )
+
+
+def join_scratch_cases(cfg):
+    """Join-heavy programs whose names come from the scratch / alias names a join uses (guard, merge and suffix columns,
+    join aliases), placed on one chosen column: the place where 'a scratch name must be free on BOTH inputs' matters."""
+    names = [x for x in internal_names() if any(k in x for k in ("null_key", "merge", "join", "right", "left"))]
+    return st.fixed_dictionaries(
+        {
+            "case": gen.programs(cfg),
+            "pool": st.lists(st.sampled_from(ORDINARY + ["zz_" + x for x in ORDINARY[:6]]), min_size=30, max_size=40),
+            "suffix_pair": st.sampled_from([None, None] + SUFFIXES),
+            "flip_order": st.just(False),
+            "force_col": st.sampled_from(names),
+            "force_idx": st.sampled_from(range(12)),
         }
     )
 
@@ -385,3 +405,6 @@ def run(ctx):
     ocfg = dict(cfg)
     ocfg.update({"ops": {"ordered_window": 8, "order_rows": 4, "window": 3, "project": 3, "natural_join": 4, "extend": 3}, "final_order": 0.5, "extend_then_ordered_window_prob": 0.3})
     ctx.campaign("ordinary_names", wrapped_cases(ocfg, ordinary=True), oracle, max_examples=ctx.n(200, 24000))
+    jcfg = dict(cfg)
+    jcfg.update({"ops": {"natural_join": 10, "extend": 2, "select_rows": 1, "project": 1, "window": 0, "ordered_window": 0, "concat_rows": 1, "convert_records": 0}, "max_nodes": 4, "n_tables": (2, 2), "final_order": 0.1})
+    ctx.campaign("join_scratch", join_scratch_cases(jcfg), oracle, max_examples=ctx.n(250, 24000))
